@@ -447,6 +447,12 @@ for nm, src in [('EXEC.LOOP', 'exec'), ('CODE.LOOP', 'code')]:
     ]
     if src == 'code':
         cl += [('fired.code', '(%s) ==> S1.code =~= S0.code.drop_last()' % have), ('{C06,C10}unfired.code', '!(%s) ==> shrunk(S0.code, S1.code, 1)' % have)]
+        # "executes its body exactly destination-many times": the re-armed CODE.LOOP takes its body from the CODE stack, so the code this
+        # step schedules must bring the body back there before CODE.LOOP runs again -- either the loop code re-quotes it
+        # ( INDEX.INCREASE CODE.QUOTE body CODE.LOOP ), or the body stays on the CODE stack and the loop code is ( INDEX.INCREASE CODE.LOOP ).
+        # (EXEC.LOOP needs no such clause: its re-armed list ( INDEX.INCREASE EXEC.LOOP body ) puts the body right where EXEC.LOOP pops it.)
+        cl += [('fired.rearm.next-round-finds-its-body', '(%s) ==> (%s || (S1.code.len() >= 1 && top(S1.code, 0) == %s && %s))'
+                % (go, is_list_of('top(S1.exec, 1)', [nm, '=' + body, 'CODE.QUOTE', 'INDEX.INCREASE']), body, is_list_of('top(S1.exec, 1)', [nm, 'INDEX.INCREASE'])))]
     row(nm, ['C06'], touches=['exec', 'index'] + (['code'] if src == 'code' else []), clauses=cl)
 # CODE.DO: CODE.POP is scheduled beneath the program (runs after it); DO*: above it (runs first); the CODE stack is not touched by the step
 c0, c1 = 'top(S0.code, 0)', 'top(S0.code, 1)'
